@@ -75,6 +75,17 @@ scen("C13", "worktree", "blank-line-in-ignore-file", INIT + [w("first.txt", "1")
      "a blank line in .goitignore hid every untracked file")
 scen("C17", "ignore", "blank-line-in-ignore-file", INIT + [w(".goitignore", "build/\n\n*.log\n"), w("g", "y"), w("build/o", "z"), w("d/x.log", "l"), w("d/k", "k"), g("add", "."), g("add", "d"), g("status")],
      "a blank line in .goitignore made add skip every path")
+scen("C08", "reset", "hard-across-file-directory-swap", INIT + [w("d/f", "1"), w("k", "k"), g("add", "d", "k"), g("commit", "-m", "one"), g("rm", "d/f"), rmdir("d"), w("d", "now a file"), g("add", "d"), g("commit", "-m", "two"),
+     g("reset", "--hard", "HEAD@{1}"), g("status"), g("reset", "--hard", "HEAD@{1}"), g("status")],
+     "reset --hard failed with 'not a directory' when a path is a file in one commit and a directory in the other")
+scen("C13", "worktree", "directory-replaced-by-file-and-back", INIT + [w("first.txt", "1"), w("docs/guide.txt", "g"), w("docs/api/ref.txt", "r"), w("notes", "n"), g("add", "first.txt", "docs", "notes"), g("commit", "-m", "first"),
+     rmdir("docs"), w("docs", "x"), g("status"), rm("notes"), w("notes/inner", "y"), g("status")],
+     "tracked files whose directory became a file, and a tracked file that became a directory, were reported neither as deleted nor as modified")
+scen("C13", "worktree", "tracked-file-ignored-later-is-still-reported", INIT + [w("first.txt", "1"), w("x.log", "l"), w("gen/o", "o"), g("add", "first.txt", "x.log", "gen"), g("commit", "-m", "first"),
+     w(".goitignore", "*.log\ngen/\n"), w("x.log", "changed"), w("gen/o", "changed"), g("status")],
+     "a tracked file matching an ignore entry written later was not reported as modified")
+scen("C07", "diff", "file-staged-where-head-has-directory", INIT + [w("a/b", "1"), w("k", "k"), g("add", "a", "k"), g("commit", "-m", "one"), g("rm", "a/b"), rmdir("a"), w("a", "file"), g("add", "a"), g("status"), g("commit", "-m", "two"), g("status")],
+     "a staged file was not listed as 'new file' when HEAD holds a directory of that name")
 print("pins written")
 
 # ---- C15 / C16 pins: points are selected by operation class of the fault-free run (at_op)
